@@ -145,7 +145,7 @@ def dispatch(E, c, args):
     # ------------------------------------------------------------ Clone / Default / Deref / AsRef / Borrow
     if tc and tc[1] == "Clone" and tc[2] == "clone":
         return clone(deref(E, args[0]))
-    if tc and tc[1] in ("Deref", "DerefMut", "AsRef<[u64]>", "Borrow") and tc[2] in ("deref", "deref_mut", "as_ref", "borrow"):
+    if tc and (tc[1] in ("Deref", "DerefMut", "AsRef<[u64]>", "Borrow") or (tc[1].startswith("AsRef<") and last_seg(tc[0]) in ("Rc", "Box", "Arc"))) and tc[2] in ("deref", "deref_mut", "as_ref", "borrow"):
         v = args[0]
         inner = deref(E, v)
         from engine import VLazy
